@@ -31,11 +31,22 @@ def build(repo, findings):
     a.r1().resub(r'\n\}$', '\n    int_value\n}', 'R6', 'wrapper epilogue returning the live variable `int_value`', count=1)
     a.sig(ret='r', ensures=[C('C07 integer-append-is-wrapping-add', 'r == parse_or_0(base@).wrapping_add(parse_or_0(suffix@))')])
     u.add(a)
+    # the integer attribute on a plain assignment (R6 block slice of apply_value_transforms)
+    fn = 'integer_attribute_value'
+    b = src.block_slice(r'^\s*if treat_as_int \{$(?=\n\s*\*s = )', 'fn integer_attribute_value(s: &mut String)', fn, within_fn='apply_value_transforms')
+    b.r1()
+    b.resub(r'\(\*s\)\.parse::<i64>\(\)\.unwrap_or\(0\)\.to_string\(\)', 'i64_to_string(parse_i64_or_0(s.as_str()))', 'R14', 'call chain parse::<i64>().unwrap_or(0).to_string() -> stubs', count=None)
+    b.sig(fn, ensures=[
+        C('C07 integer-attribute-assignment-stores-the-value-of-the-text-as-an-arithmetic-expression kf=C07:integer-attribute-assignment-not-evaluated',
+          '{{KF:C07:integer-attribute-assignment-not-evaluated}} || final(s)@ == int_text(arith_value(old(s)@))'),
+    ])
+    b.at_body_start(fn, 'broadcast use axiom_plain_decimal_evaluates_to_itself;')
+    u.add(b)
     u.raw(FOOTER)
     u.assume('assume_specification', 'BTreeMap::last_key_value returns the entry with the largest key (std documented behaviour); contracts/std/int_ops.rs (discharged by Kani in the thorough tier)')
-    u.assume('axiom', 'btree_is_max at u64 keys means: no key is larger')
-    u.assume('uninterp', 'parse_or_0 (text -> integer, default 0), btree_keys, btree_is_max')
+    u.assume('axiom', 'btree_is_max at u64 keys means: no key is larger; a plain decimal literal (no leading zero) evaluates to itself')
+    u.assume('uninterp', 'parse_or_0 (text -> integer, default 0), btree_keys, btree_is_max, arith_value (the value of a text as an arithmetic expression), int_text')
     u.assume('external_body', 'parse_i64_or_0 stands for `E.parse::<i64>().unwrap_or(0)` (rule R14); error::Error is opaque; From<ErrorKind> for Error is a stub')
     u.assume('stub', 'assign_at_index / assign themselves (ShellValue with fn-pointer fields, BTreeMap through closures) are NOT verified; only the sliced statements are. The two array-element append statements have the same shape and are covered by the mutant battery only.')
-    u.expected_min_fns = 2
+    u.expected_min_fns = 3
     return u
